@@ -29,6 +29,7 @@ fn main() {
         Some("sigv4-header-value") => sigv4::header_value(&args[1..]),
         Some("chunked") => sigv4::chunked(&args[1..]),
         Some("sigv2") => sigv4::v2(&args[1..]),
+        Some("post-form") => sigv4::post_form(&args[1..]),
         Some("sigv4-tamper") => sigv4::tamper(),
         Some("sigv4-search") => sigv4::search(),
         Some("window") => sigv4::window(&args[1..]),
